@@ -54,6 +54,49 @@ Theorem c20_pbt_clone_source_alive :
 Proof. exact pbt_clone_source_alive. Qed.
 Print Assumptions c20_pbt_clone_source_alive.
 
+(* the pre-fix model does fail (non-vacuity of the localisation below; this is the old
+   c20_pbt_clone_source_alive_refuted, now about pbt_sched_unfixed) *)
+Theorem c20_pbt_unfixed_clone_source_alive_refuted :
+  exists prm c its pre j t post,
+    delete_checkpoints c = true /\
+    run (pbt_sched_unfixed prm) c (init pbt0) its = pre ++ ECopy j t :: post /\ deleted_in pre j = true.
+Proof.
+  exists wprm, wcfg, wits, wpre, 1%Z, 2%Z, wpost.
+  split; [reflexivity | exact pbt_clone_source_deleted_witness].
+Qed.
+Print Assumptions c20_pbt_unfixed_clone_source_alive_refuted.
+
+(* Localisation of finding F-C20-1 (pbt_sched_unfixed = PopulationBasedTraining before the
+   fix).  In EVERY run, a clone is started from a deleted checkpoint ONLY IF backend.stop_trial
+   was called for the source j (which happens only right after the scheduler's own STOP for j,
+   see c20_delete_only_when_allowed) between the clone decision "EClone i j" that pushed j on
+   _trial_decisions_stack and the clone's start; when that decision was taken, j's checkpoint
+   had never been deleted.  (That such runs exist: c20_pbt_unfixed_clone_source_alive_refuted.) *)
+Theorem c20_pbt_unfixed_failure_localised :
+  forall p c its pre j t post,
+    remove_callback c = false -> speculative c = false ->
+    run (pbt_sched_unfixed p) c (init pbt0) its = pre ++ ECopy j t :: post ->
+    deleted_in pre j = true ->
+    exists p1 i p2, pre = p1 ++ EClone i j :: p2 /\ deleted_in p1 j = false /\ In (EStop j) p2.
+Proof. exact pbt_unfixed_localised. Qed.
+Print Assumptions c20_pbt_unfixed_failure_localised.
+
+(* tuning has ended: after stop_all (EStopAll occurs exactly once) only stop_trial and the
+   final delete_checkpoint calls happen — no start, resume or copy. *)
+Theorem c20_after_stop_all_only_stops_and_deletes :
+  forall (S R G : Type) (sch : scheduler S R G) (c : cfg) st its pre post,
+    run sch c st its = pre ++ EStopAll :: post ->
+    Forall (fun e => match e with EStop _ => True | EDelete _ WStopAll => True | _ => False end) post /\
+    ~ In EStopAll pre.
+Proof.
+  intros S R G sch c st its pre post E.
+  destruct (after_stop_all_only_final sch c st its pre post E) as [H1 H2]. split.
+  - eapply Forall_impl; [|exact H1]. intros e He. destruct e; try discriminate; try exact I.
+    destruct w; try discriminate; exact I.
+  - intros Hin. unfold NE in H2. rewrite Forall_forall in H2. specialize (H2 _ Hin). discriminate.
+Qed.
+Print Assumptions c20_after_stop_all_only_stops_and_deletes.
+
 (* partial version (holds for EVERY scheduler, hence for PBT): when no removal callback
    is installed, the checkpoint of a clone source is alive when it is copied PROVIDED the
    scheduler has not answered STOP for the source before the clone is started (and tuning
@@ -75,24 +118,31 @@ Print Assumptions c20_pbt_clone_source_alive_partial.
    by no delete_checkpoint(i) at all. *)
 Theorem c20_resume_has_checkpoint :
   forall (S R G : Type) (sch : scheduler S R G) (c : cfg), speculative c = false ->
-  forall (needed : S -> list Z) (sinv : Z -> S -> Prop),
+  forall (cc : bool) (needed : S -> list Z) (sinv : Z -> S -> Prop),
     (forall n s i r s' d cl, sinv n s -> on_result sch s i r = (s', d, cl) ->
-       sinv n s' /\ incl (needed s') (needed s) /\ (d = STOP -> ~ In i (needed s'))) ->
+       sinv n s' /\ incl (needed s') (needed s) /\ (d = STOP -> ~ In i (needed s')) /\
+       (forall j, cl = Some j -> In j (needed s))) ->
     (forall n s g s' sg, sinv n s -> suggest sch s n g = (s', sg) ->
        match sg with
        | SNone => sinv n s' /\ incl (needed s') (needed s)
        | SNew => sinv (n + 1)%Z s' /\ incl (needed s') (n :: needed s)
-       | SFrom j => sinv (n + 1)%Z s' /\ incl (needed s') (n :: needed s) /\ In j (needed s)
+       | SFrom j => sinv (n + 1)%Z s' /\ incl (needed s') (n :: needed s) /\ (cc = true -> In j (needed s))
        | SResume i => sinv n s' /\ incl (needed s') (needed s) /\ In i (needed s)
        end) ->
     (forall n s s' l, sinv n s -> removables sch s = (s', l) ->
        sinv n s' /\ incl (needed s') (needed s) /\
        forall i, In i l -> ~ In i (needed s') /\ (0 <= i < n)%Z) ->
     (forall n s i, sinv n s -> sinv n (on_error sch s i) /\ incl (needed (on_error sch s i)) (needed s)) ->
-  forall s0 its pre i post, sinv 0%Z s0 ->
-    run sch c (init s0) its = pre ++ EResume i :: post ->
-    forall w, ~ In (EDelete i w) pre.
-Proof. intros S R G sch c Hs needed sinv. exact (resume_has_checkpoint sch c Hs needed sinv). Qed.
+  forall s0 its, sinv 0%Z s0 ->
+    (forall pre i post, run sch c (init s0) its = pre ++ EResume i :: post -> forall w, ~ In (EDelete i w) pre) /\
+    (forall pre i j post, run sch c (init s0) its = pre ++ EClone i j :: post -> forall w, ~ In (EDelete j w) pre) /\
+    (cc = true -> forall pre j t post, run sch c (init s0) its = pre ++ ECopy j t :: post -> forall w, ~ In (EDelete j w) pre).
+Proof.
+  intros S R G sch c Hs cc needed sinv H1 H2 H3 H4 s0 its H0. repeat split.
+  - intros pre i post. exact (resume_has_checkpoint sch c Hs cc needed sinv H1 H2 H3 H4 s0 its pre i post H0).
+  - intros pre i j post. exact (clone_source_alive_at_decision sch c Hs cc needed sinv H1 H2 H3 H4 s0 its pre i j post H0).
+  - intros Hcc pre j t post. exact (copy_has_checkpoint sch c Hs cc needed sinv H1 H2 H3 H4 Hcc s0 its pre j t post H0).
+Qed.
 Print Assumptions c20_resume_has_checkpoint.
 
 (* instance, closed: promotion-type schedulers (HyperbandScheduler promotion / pasha /
